@@ -189,11 +189,14 @@ def bytes_tok(draw, allow_slashes=True):
 OPNAMES = sorted(rops.OPS)
 LABEL_POOL = ["l1", "main_l2", "b", "bz", "bnz_", "int1", "err_", "dup2x", "loop", "x", "return_", "callsub1", "L_0", "switch_", "len2", "b_", "popx", "assert1"]
 
+# a label called base64/b64/base32/b32 switches the real assembler's tokenizer into "literal follows" mode;
+# such names are excluded by construction
+_RESERVED_WORDS = {"base64", "b64", "base32", "b32"}
 label_names = st.one_of(
     st.sampled_from(LABEL_POOL),
     st.text(alphabet=IDENT_CHARS, min_size=1, max_size=8),
     st.builds(lambda op, suf: op + suf, st.sampled_from([o for o in OPNAMES if o[0].isalpha()]), st.sampled_from(["_", "1", "x", "_0", "2"])),
-)
+).filter(lambda n: n not in _RESERVED_WORDS)
 
 
 @st.composite
